@@ -509,6 +509,11 @@ def rule_cut(ctx):
             gt = any(c[3][0] == "bin" and c[3][1] == "Gt" and c[3][2] == v and c[3][3] == ("var", "alpha") and True in c[1] for c in cons)
             ctx.check(gt, c_dedup(ctx, "%s:alpha-raised-from-better-score" % key), "alpha = score only under score > alpha", b.where(db),
                       bad_what="alpha is assigned `%s` without the guard `that value > alpha`" % expr_str(v))
+        # ... and it *is* raised: inside the move loop a better score becomes the new alpha (without it the node returns the
+        # alpha it was given - or its stand-pat - whatever its moves achieve)
+        raised = [db for (db, di, rv) in (b.defs().get(al[0], []) if al else []) if b.in_loop(db)]
+        ctx.check(len(raised) >= 1, "%s:alpha-is-raised-in-the-move-loop" % key, "inside the move loop a score above alpha becomes the new alpha (%d site(s))" % len(raised), b.where(raised[0] if raised else 0),
+                  bad_what="%s never raises alpha inside its move loop: the value it returns ignores what its moves achieve" % C.short(key))
 
 
 def _ext_before(b, ext_block, q_block):
@@ -620,6 +625,17 @@ def rule_terminal(ctx):
     if ok:
         pe = qsym.operand(gen[0][1]["args"][1])
         ok = any(isinstance(x, tuple) and x[0] == "fn" and x[1] == "board::ply::Ply::is_capture" for x in walk(pe))
+    if ok:
+        # ... and get_filtered_moves does filter: all pseudo-legal moves, retained by the predicate it was given
+        fb = ctx.body("board::Board::get_filtered_moves")
+        fsym = ctx.sym(fb)
+        rets = [(bi, t) for bi, t in fb.calls() if callee_is(t, "std::vec::Vec::retain", "std::vec::Vec::<T, A>::retain")]
+        src = [(bi, t) for bi, t in fb.calls() if callee_is(t, "board::Board::get_all_moves")]
+        pred = [fb.local_name(l) for l in range(1, fb.arg_count + 1) if "fn(" in fb.locals[l]["ty"]]
+        okf = len(rets) == 1 and len(src) == 1 and len(pred) == 1 and mir.strip_copies(fsym.operand(rets[0][1]["args"][1])) == ("arg", pred[0]) \
+            and mir.strip_refs(fsym.operand(rets[0][1]["args"][0])) == mir.strip_copies(fsym.local(0)) and fb.dominates(src[0][0], rets[0][0])
+        ctx.check(okf, "get_filtered_moves:retains-by-the-predicate", "get_filtered_moves = get_all_moves() retained by the predicate argument", fb.where(0),
+                  bad_what="get_filtered_moves does not retain its move list by the predicate it is given: quiescence then searches moves that are not captures")
     ctx.check(ok, "quiescence:captures-only", "quiescence considers exactly the moves with Ply::is_capture", q.where(gen[0][0] if gen else 0), bad_what="quiescence's move list is not get_filtered_moves(Ply::is_capture)")
     ev = [(bi, t) for bi, t in q.calls() if (t.get("decl") or "").endswith("Evaluator::evaluate")]
     ctx.check(len(ev) == 1 and not q.in_loop(ev[0][0]), "quiescence:stand-pat", "one static evaluation per quiescence node, before the capture loop", q.where(ev[0][0] if ev else 0), bad_what="quiescence has %d evaluate calls" % len(ev))
